@@ -1,4 +1,5 @@
 import Generated.PureHttp
+import Bridge.PureAscii
 import Req.Client.Validate
 import Req.H1.LineSplit
 /-!
@@ -10,7 +11,7 @@ within `len(s)+1` iterations each and never index or slice out of range.
 -/
 namespace Bridge.PureHttp
 open Req.GoSem
-open Generated.PureHttp (stringContainsCTLByte_loop1 trim_loop1 trim_loop2)
+open Generated.PureHttp (stringContainsCTLByte_loop1 trim_loop1 trim_loop2 hasToken_loop1)
 
 theorem isTokenBoundary_bridge (b : UInt8) :
     Generated.PureHttp.isTokenBoundary b = Req.Validate.isTokenBoundary b := by
@@ -31,7 +32,7 @@ private theorem ctl_byte (b : UInt8) :
       Req.Validate.isCTL (UInt8.ofNat n) := by decide +kernel
   simpa using h b.toNat (UInt8.toNat_lt b)
 
-private theorem idx_app {α : Type} (pre : List α) (c : α) (post : List α) :
+theorem idx_app {α : Type} (pre : List α) (c : α) (post : List α) :
     idx? (pre ++ c :: post) (pre.length : Int) = some c := by
   rw [idx?_eq_getElem?]; simp
 
@@ -70,7 +71,7 @@ private theorem ows_eq (c : UInt8) : Req.H1.isOWS c = ((c == 32) || (c == 9)) :=
       ((UInt8.ofNat n == 32) || (UInt8.ofNat n == 9)) := by decide +kernel
   simpa using h c.toNat (UInt8.toNat_lt c)
 
-private theorem slice_mid (pre mid post : Bytes) :
+theorem slice_mid (pre mid post : Bytes) :
     slice? (pre ++ mid ++ post) (pre.length : Int) ((pre.length + mid.length : Nat) : Int) = some mid := by
   unfold slice? len
   have : (0 : Int) ≤ (pre.length : Int) ∧ (pre.length : Int) ≤ ((pre.length + mid.length : Nat) : Int) ∧
@@ -187,5 +188,192 @@ theorem trim_bridge (s : Bytes) : Generated.PureHttp.trim s = Res.ok (Req.H1.tri
     rw [List.length_append] at this; unfold len; omega
   rw [hl, h2]
   rfl
+
+/-! ### hasToken -/
+section HasToken
+open Req.Validate Req.Ascii
+
+/-- every byte equals its lower-case form, or does so after setting bit 5 (the first-character filter of `hasToken`) -/
+theorem filter_byte (b : UInt8) : (b == toLower b || (b ||| 32) == toLower b) = true := by
+  have h : ∀ n, n < 256 → ((UInt8.ofNat n) == toLower (UInt8.ofNat n) || ((UInt8.ofNat n) ||| 32) == toLower (UInt8.ofNat n)) = true := by
+    decide +kernel
+  simpa using h b.toNat (UInt8.toNat_lt b)
+
+def LowerTok (tok : Bytes) : Prop := ∀ c ∈ tok, toLower c = c
+
+theorem tb (b : UInt8) : Generated.PureHttp.isTokenBoundary b = isTokenBoundary b := isTokenBoundary_bridge b
+
+/-- One iteration of the Go loop at position `pre.length` of `pre ++ rest`. -/
+theorem step (pre rest tok : Bytes) (f : Nat) (hne : tok ≠ []) (hlen : tok.length ≤ rest.length)
+    (hlow : LowerTok tok) :
+    hasToken_loop1 (pre ++ rest) tok (f + 1) (pre.length : Int) =
+      if hasTokenAt tok pre.getLast? rest then Res.ok true
+      else hasToken_loop1 (pre ++ rest) tok f ((pre.length : Int) + 1) := by
+  obtain ⟨t0, ts, rfl⟩ : ∃ t0 ts, tok = t0 :: ts := by
+    cases tok with
+    | nil => exact absurd rfl hne
+    | cons a l => exact ⟨a, l, rfl⟩
+  obtain ⟨b, r, rfl⟩ : ∃ b r, rest = b :: r := by
+    cases rest with
+    | nil => simp at hlen
+    | cons a l => exact ⟨a, l, rfl⟩
+  -- facts about the four partial operations of the iteration
+  have hb : idx? (pre ++ b :: r) (pre.length : Int) = some b := idx_app pre b r
+  have ht0 : idx? (t0 :: ts) (0 : Int) = some t0 := by
+    rw [show (0 : Int) = ((0 : Nat) : Int) by rfl, idx?_eq_getElem?]; rfl
+  have hsl : slice? (pre ++ b :: r) (pre.length : Int) ((pre.length : Int) + len (t0 :: ts)) =
+      some ((b :: r).take (ts.length + 1)) := by
+    have hsplit : b :: r = (b :: r).take (ts.length + 1) ++ (b :: r).drop (ts.length + 1) := by simp
+    have hl : ((b :: r).take (ts.length + 1)).length = ts.length + 1 := by
+      rw [List.length_take]; simp at hlen ⊢; omega
+    have := slice_mid pre ((b :: r).take (ts.length + 1)) ((b :: r).drop (ts.length + 1))
+    rw [List.append_assoc, ← hsplit, hl] at this
+    rw [← this]; simp [len]
+  have hE := Bridge.PureAscii.equalFold_bridge ((b :: r).take (ts.length + 1)) (t0 :: ts)
+  -- the first-character filter never rejects a position where the token matches
+  have hfilter : equalFold ((b :: r).take (ts.length + 1)) (t0 :: ts) = true →
+      ((b != t0) = false ∨ ((b ||| 32) != t0) = false) := by
+    intro h
+    have h1 : toLower b = toLower t0 := by
+      have := eq_of_beq h
+      simp [lower] at this
+      exact this.1
+    have h2 : toLower t0 = t0 := hlow t0 (by simp)
+    have h3 := filter_byte b
+    rw [h1, h2] at h3
+    simp at h3 ⊢
+    rcases h3 with h3 | h3
+    · left; exact h3
+    · right; exact h3
+  -- the byte after the candidate, if any
+  have hend : ∀ D, (b :: r).drop (ts.length + 1) = D →
+      (match D with
+       | [] => (((pre.length : Int) + len (t0 :: ts)) != len (pre ++ b :: r)) = false
+       | q :: _ => (((pre.length : Int) + len (t0 :: ts)) != len (pre ++ b :: r)) = true ∧
+                   idx? (pre ++ b :: r) ((pre.length : Int) + len (t0 :: ts)) = some q) := by
+    intro D hD
+    have hsplit : b :: r = (b :: r).take (ts.length + 1) ++ D := by rw [← hD]; simp
+    have hl : ((b :: r).take (ts.length + 1)).length = ts.length + 1 := by
+      rw [List.length_take]; simp at hlen ⊢; omega
+    have hlen2 := congrArg List.length hsplit
+    rw [List.length_append, hl] at hlen2
+    cases D with
+    | nil => simp [len] at hlen2 ⊢; omega
+    | cons q d2 =>
+      refine ⟨by simp [len] at hlen2 ⊢; omega, ?_⟩
+      have hv : pre ++ b :: r = (pre ++ (b :: r).take (ts.length + 1)) ++ q :: d2 := by
+        rw [List.append_assoc, ← hsplit]
+      have hi : ((pre.length : Int) + len (t0 :: ts)) = (((pre ++ (b :: r).take (ts.length + 1)).length : Nat) : Int) := by
+        rw [List.length_append, hl]; simp [len]
+      rw [hi, hv, idx_app]
+  -- the byte before the candidate, if any
+  have hprev : (match pre.getLast? with
+       | none => (decide ((pre.length : Int) > 0)) = false
+       | some p => (decide ((pre.length : Int) > 0)) = true ∧ idx? (pre ++ b :: r) ((pre.length : Int) - 1) = some p) := by
+    rcases List.eq_nil_or_concat pre with rfl | ⟨p', p, rfl⟩
+    · simp
+    · simp only [List.concat_eq_append, List.getLast?_append, List.getLast?_singleton, Option.some_or]
+      refine ⟨by simp <;> omega, ?_⟩
+      have hv : p' ++ [p] ++ b :: r = p' ++ p :: (b :: r) := by simp
+      have hi : (((p' ++ [p]).length : Int) - 1) = ((p'.length : Nat) : Int) := by simp
+      rw [hi, hv, idx_app]
+  rw [hasToken_loop1]
+  simp only [hb, ht0, hsl, hE, tb]
+  unfold hasTokenAt
+  have hlen' : decide ((t0 :: ts).length ≤ (b :: r).length) = true := by simpa using hlen
+  rw [show (t0 :: ts).length = ts.length + 1 by simp] at hlen' ⊢
+  simp only [hlen', Bool.and_true]
+  generalize hD : (b :: r).drop (ts.length + 1) = D at *
+  have hend' := hend D rfl
+  cases hE2 : equalFold ((b :: r).take (ts.length + 1)) (t0 :: ts) with
+  | false =>
+    cases hP : pre.getLast? <;> cases D <;> simp_all
+
+  | true =>
+    have hf := hfilter hE2
+    by_cases h1 : b = t0 <;> by_cases h2 : (b ||| 32) = t0 <;>
+      cases hP : pre.getLast? <;> cases D <;> simp_all <;>
+      (rename_i p q _; by_cases hp : isTokenBoundary p = true <;> by_cases hq : isTokenBoundary q = true <;> simp [hp, hq])
+
+private theorem aux_short (tok : Bytes) : ∀ (rest : Bytes) (prev : Option UInt8), rest.length < tok.length →
+    hasTokenAux tok prev rest = false := by
+  intro rest
+  induction rest with
+  | nil => intro prev _; rfl
+  | cons c t ih =>
+    intro prev h
+    unfold hasTokenAux hasTokenAt
+    have : ¬ tok.length ≤ (c :: t).length := by omega
+    simp only [this, decide_false, Bool.and_false, Bool.false_and, Bool.false_or]
+    exact ih (some c) (by simp at h; omega)
+
+private theorem loop (tok : Bytes) (hne : tok ≠ []) (hlow : LowerTok tok) : ∀ (f : Nat) (pre rest : Bytes),
+    rest.length + 1 = f + tok.length →
+    hasToken_loop1 (pre ++ rest) tok f (pre.length : Int) = Res.ok (hasTokenAux tok pre.getLast? rest) := by
+  intro f
+  induction f with
+  | zero =>
+    intro pre rest h
+    rw [aux_short tok rest _ (by omega)]
+    rw [hasToken_loop1]
+  | succ f ih =>
+    intro pre rest h
+    have hlen : tok.length ≤ rest.length := by omega
+    rw [step pre rest tok f hne hlen hlow]
+    cases rest with
+    | nil => cases tok with
+             | nil => exact absurd rfl hne
+             | cons _ _ => simp at hlen
+    | cons b r =>
+      have hrec := ih (pre ++ [b]) r (by simp at h; omega)
+      simp only [List.append_assoc, List.singleton_append, List.length_append, List.length_singleton,
+        List.getLast?_append, List.getLast?_singleton, Option.some_or] at hrec
+      rw [show ((pre.length : Int) + 1) = ((pre.length + 1 : Nat) : Int) by simp, hrec]
+      rw [hasTokenAux]
+      cases hasTokenAt tok pre.getLast? (b :: r) <;> simp
+
+private theorem at_self (tok : Bytes) : hasTokenAt tok none tok = true := by
+  unfold hasTokenAt
+  simp [equalFold]
+
+/-- `hasToken(v, token)` (http.go; decides `Connection: close` / `keep-alive` / `Upgrade` tokens) never
+panics and computes the model's `hasToken`, for every `v` and every LOWER-CASE token (the Go
+function documents "token must be all lowercase": its first-character filter is only sound then). -/
+theorem hasToken_bridge (v tok : Bytes) (hlow : LowerTok tok) :
+    Generated.PureHttp.hasToken v tok = Res.ok (Req.Validate.hasToken v tok) := by
+  unfold Generated.PureHttp.hasToken Req.Validate.hasToken
+  by_cases he : tok = []
+  · subst he; simp
+  · have hne : (tok == ([] : List UInt8)) = false := by simpa using he
+    have hemp : tok.isEmpty = false := by simpa using he
+    simp only [hne, Bool.or_false, hemp, Bool.not_false, Bool.true_and]
+    by_cases hl : tok.length > v.length
+    · have : decide (len tok > len v) = true := by simp [len]; omega
+      simp only [this, if_true]
+      rw [aux_short tok v none hl]
+    · have : decide (len tok > len v) = false := by simp [len]; omega
+      simp only [this, Bool.false_eq_true, if_false]
+      by_cases hv : v = tok
+      · subst hv
+        simp only [beq_self_eq_true, if_true]
+        cases v with
+        | nil => exact absurd rfl he
+        | cons c t => unfold hasTokenAux; rw [at_self]; rfl
+      · have : (v == tok) = false := by simpa using hv
+        simp only [this, Bool.false_eq_true, if_false]
+        have := loop tok he hlow (v.length - tok.length + 1) [] v (by omega)
+        simp only [List.nil_append, List.length_nil, List.getLast?_nil] at this
+        have hf : (len v - len tok - (0 : Int) + 1).toNat = v.length - tok.length + 1 := by
+          simp [len]; omega
+        rw [hf, show (0 : Int) = ((0 : Nat) : Int) by rfl, this]
+
+/-- the excluded point: with an upper-case token the first-character filter rejects a match the
+model accepts (replayed on the real `hasToken` by the search script) -/
+theorem hasToken_uppercase_token_differs :
+    Generated.PureHttp.hasToken [97] [65] = Res.ok false ∧ Req.Validate.hasToken [97] [65] = true := by
+  decide
+
+
+end HasToken
 
 end Bridge.PureHttp
